@@ -174,13 +174,14 @@ fn judge_one(mods: &[M], obs: &Obs, ans: &str, label: &str, dependents_of_faults
         let later_same_name = flat[i + 1..].iter().any(|(_, d2)| d2.name == d.name);
         if d.no_output() {
             j.stats.push("accounted:no-output-category".into());
-        } else if later_same_name && !warned {
-            // the index keeps the last definition of a bare name; is this one represented anyway?
-            if represented {
-                j.stats.push("accounted:represented".into());
+        } else if later_same_name {
+            // the index keeps the last definition of a bare name; the replaced one is the subject of a warning of its own
+            // (since the fix recorded as C10_bare_name_collision; the class is no longer listed as known)
+            if crate::pipe_obs::replaced_warned(&obs.warnings).iter().any(|(wm, wn)| wm == &m.name && wn == &d.name) {
+                j.stats.push("accounted:replaced-warning".into());
             } else {
-                let model_drops = !events.iter().any(|e| matches!(e, Ev::E { module, name, .. } | Ev::G { module, name } if module == &m.name && name == &d.name));
-                j.unsat.push(("C10_bare_name_collision".into(), model_drops, format!("{label}: `{}` of module {} is neither represented nor warned about: module {} defines the same name later", d.name, m.name, flat[i + 1..].iter().find(|(_, d2)| d2.name == d.name).map(|x| x.0.name.clone()).unwrap_or_default())));
+                let model_drops = !events.iter().any(|e| matches!(e, Ev::E { module, name, .. } | Ev::G { module, name } | Ev::R { module, name } if module == &m.name && name == &d.name));
+                j.unsat.push(("C10_bare_name_collision".into(), model_drops, format!("{label}: `{}` of module {} is not the subject of a warning although module {} defines the same name later and replaces it", d.name, m.name, flat[i + 1..].iter().find(|(_, d2)| d2.name == d.name).map(|x| x.0.name.clone()).unwrap_or_default())));
             }
         } else if represented {
             j.stats.push("accounted:represented".into());
